@@ -5,6 +5,7 @@
 -/
 import MRB.Conc.Data
 import MRB.Gen.Kernel
+import MRB.Seq.Arith
 
 namespace MRB.Props.C10
 open MRB MRB.Conc
@@ -80,6 +81,6 @@ theorem C10_source_straight_line :
     Gen.skelConsReset.map (·.name) = [.succIndex, .setAtomicIndex] ∧ Gen.skelWorkReset.map (·.name) = [.succIndex, .setAtomicIndex] ∧
     Gen.skelDropProd.map (·.name) = [.setProdAlive, .releaseIter, .drop] ∧
     Gen.loops = [("poll", "loop"), ("push_slice_clone_init", "for"), ("push_slice_init", "for"), ("wait_for", "while")] :=
-  ⟨rfl, rfl, rfl, rfl, fun _ _ _ _ _ _ => rfl, fun _ _ _ _ _ _ => rfl, rfl, rfl, rfl, rfl, rfl⟩
+  ⟨rfl, rfl, rfl, rfl, fun i c s L n a => Gen.check_cached_eq i c s L n a, fun i c s L n a => Gen.check_ret_eq i c s L n a, rfl, rfl, rfl, rfl, rfl⟩
 
 end MRB.Props.C10
